@@ -197,6 +197,26 @@ func init() {
 			}
 			fmt.Fprintf(w, "def workbookScopeName : String := %s\n", leanStr(wbName))
 		}
+		if fd := funcDecl("", "adjustRangeSheetName"); fd == nil {
+			fail("func adjustRangeSheetName")
+		} else {
+			b := strings.Join(strings.Fields(src(fd.Body)), " ")
+			seps := strings.Contains(b, `strings.Split(rng, ",")`) && strings.Contains(b, `strings.Split(cellRef, ":")`) &&
+				strings.Contains(b, `strings.Split(rangeRef, "!")`) &&
+				strings.Contains(b, `singleQuote := strings.HasPrefix(part, "'") && strings.HasSuffix(part, "'")`) &&
+				strings.Contains(b, `part = strings.TrimPrefix(strings.TrimSuffix(part, "'"), "'")`)
+			if !seps {
+				fail("adjustRangeSheetName: split on , : ! and the quote test")
+			}
+			fmt.Fprintf(w, "def renameKeepsQuotes : Bool := %v\n",
+				strings.Contains(b, `if part == source { part = target }`) &&
+					strings.Contains(b, `if singleQuote { part = "'" + part + "'" } parts[k] = part`))
+		}
+		if fd := funcDecl("File", "SetSheetName"); fd != nil {
+			b := strings.Join(strings.Fields(src(fd.Body)), " ")
+			fmt.Fprintf(w, "def renameRewritesDefinedNames : Bool := %v\n",
+				strings.Contains(b, `for i, dn := range wb.DefinedNames.DefinedName { wb.DefinedNames.DefinedName[i].Data = adjustRangeSheetName(dn.Data, source, target) }`))
+		}
 		if fd := funcDecl("File", "DeleteDefinedName"); fd == nil {
 			fail("func DeleteDefinedName")
 		} else {
